@@ -858,6 +858,14 @@ func (c *Conn) dispatch(fr *FrameHeader) bool {
 	// The Ctx is given back before finish: finish closes a streamed request
 	// body that is still pending, which takes the Ctx again.
 	err := c.readStreamOwned(fr, r)
+
+	// The window goes back once the Ctx has been given up. Queueing a
+	// WINDOW_UPDATE blocks while the outgoing queue is full, and the write loop
+	// that drains it may be waiting for this very Ctx to send the request body.
+	if fr.Type() == FrameData {
+		c.creditData(fr)
+	}
+
 	if err == nil {
 		// END_STREAM only exists on DATA and HEADERS; on any other frame type
 		// the bit is undefined and must be ignored (RFC 7540 4.1).
@@ -1557,22 +1565,26 @@ func (c *Conn) readStream(fr *FrameHeader, res *fasthttp.Response) (err error) {
 		err = NewResetStreamError(
 			fr.Body().(*RstStream).Code(), "stream reset by the server")
 	case FrameData:
-		c.consumeConnWindow(fr.Len())
-
 		data := fr.Body().(*Data)
 		if data.Len() != 0 {
 			res.AppendBody(data.Data())
 		}
-
-		// The whole payload counts against the stream's window, padding
-		// included, so that is what goes back: a frame that is all padding
-		// would otherwise never be credited.
-		if fr.Len() > 0 {
-			c.updateWindow(fr.Stream(), fr.Len())
-		}
 	}
 
 	return err
+}
+
+// creditData hands back the window a DATA frame used up, on the connection and
+// on its stream.
+func (c *Conn) creditData(fr *FrameHeader) {
+	c.consumeConnWindow(fr.Len())
+
+	// The whole payload counts against the stream's window, padding
+	// included, so that is what goes back: a frame that is all padding
+	// would otherwise never be credited.
+	if fr.Len() > 0 {
+		c.updateWindow(fr.Stream(), fr.Len())
+	}
 }
 
 // consumeConnWindow accounts for a DATA frame against the connection's receive
